@@ -464,7 +464,11 @@ def parseStep (st : PState) : SrcRule → PState
 
 /-- `sheet.cssText = (text, init)` on a fresh sheet; the final `_cleanNamespaces()` uses the real view (:366-369) -/
 def parseSheet (init : Dict) (src : List SrcRule) : Sheet × Bool :=
-  let st := src.foldl parseStep { rules := [], dict := init, expected := 0 }
+  let st0 : PState := { rules := [], dict := init, expected := 0 }
+  let st := match src with
+    | [] => st0
+    -- the rules of the text are separated by white space: the `S` callback makes `expected` ≥ 1 (:168-171)
+    | r :: t => t.foldl (fun st r => parseStep { st with expected := max 1 st.expected } r) (parseStep st0 r)
   cleanNamespaces st.rules
 
 /-! ## the operations of a history -/
